@@ -470,11 +470,20 @@ func c01TamperRun(r *verifmc.Run, b *c01TamperBase, slice int) {
 			if touched {
 				gz := c01Decaps(sch, b.skZ, c01Clone(data))
 				r.Eval(1)
+				matches := func(e []byte, fail bool) bool {
+					if gz.panic != "" {
+						return false
+					}
+					if fail {
+						return gz.err != nil
+					}
+					return gz.err == nil && bytes.Equal(gz.ss, e)
+				}
 				ez, fz := m.Fast(b.skbZ, data, b.ct)
-				ok := !gz.failed() && !fz && bytes.Equal(gz.ss, ez)
+				ok := matches(ez, fz)
 				if !ok && !isFrodo {
 					ez, fz = m.Full(b.skbZ, data)
-					ok = !gz.failed() && !fz && bytes.Equal(gz.ss, ez)
+					ok = matches(ez, fz)
 				}
 				rejectedByBoth := !usedFull // the first key rejected (fast model applied)
 				switch {
